@@ -64,6 +64,20 @@ def payloads(rng, tier):
                                      "indel": rng.random() < 0.7}
                 yield "single", {"k": k, "rows": rows, "v0": v0, "w": w, "edits": [["I", p, c]], "vt": use_vt, "indel": True}
             yield "single", {"k": k, "rows": rows, "v0": v0, "w": w, "edits": [["D", p, w[p]]], "vt": use_vt, "indel": True}
+    # graphs of order 8 (65 536 vertices: indices beyond 2^15, rows rebuilt from the seed; judged by the oracle only)
+    for _ in range({"quick": 6, "thorough": 40, "search": 6}[tier]):
+        seed = rng.randrange(1 << 30)
+        rows = big_rows(seed)
+        v0 = rng.choice([rng.randrange(32768, 65536), rng.randrange(65536), 65535])
+        n = rng.randint(40, 70)
+        w = gen.random_walk(rng, rows, v0, n)
+        if len(w) != n:
+            continue
+        p = rng.randrange(8, n - 16)
+        e = rng.choice("SID")
+        c = rng.choice([x for x in NUC if x != w[p]]) if e != "D" else w[p]
+        yield "single", {"k": 8, "big": seed, "rows": None, "v0": v0, "w": w, "edits": [[e, p, c]], "vt": rng.random() < 0.4,
+                         "indel": True if e != "S" else rng.random() < 0.7}
     # repetitive walks on small sparse graphs, with the same edit applied at two places whose surrounding 2k-1 windows
     # coincide while the symbol before the window differs
     twins = {"quick": 250, "thorough": 5000, "search": 100}[tier]
@@ -181,11 +195,33 @@ def payloads(rng, tier):
                         "indel": (not subst_only) or rng.random() < 0.5}
 
 
+_BIG = {}
+
+
+def big_rows(seed):
+    """an order-8 graph: the complete graph without the arcs a fixed arithmetic rule picks (every vertex keeps at least two)"""
+    if seed not in _BIG:
+        _BIG.clear()
+        n = 4 ** 8
+        rows = []
+        for v in range(n):
+            r = [(4 * v + j) % n for j in range(4)]
+            drop = [j for j in range(4) if (v * 2654435761 + j * 40503 + seed) % 7 == 0][:2]
+            for j in drop:
+                r[j] = -1
+            rows.append(r)
+        _BIG[seed] = rows
+    return _BIG[seed]
+
+
 def build(stream, p):
     k, rows, v0, w, edits = p["k"], p["rows"], p["v0"], p["w"], p["edits"]
+    big = p.get("big") is not None
+    if big:
+        rows = big_rows(p["big"])
     s = rc.apply_edits(w, [tuple(e) for e in edits])
     vt = formula(w, 6) if p["vt"] else None
-    call, impl = rc.repair_case_parts(rows, v0, k, s, vt, p["indel"], 1e9)
+    call, impl = rc.repair_case_parts(rows, v0, k, s, vt, p["indel"], 1e9, no_call=big)
 
     def oracle(ans, raw):
         if isinstance(raw, BaseException):
